@@ -141,7 +141,7 @@ fn replay(a: &Args) {
     let mut rng = StdRng::seed_from_u64(seed);
     let mut w = BufWriter::new(File::create(out).unwrap());
     let rd = BufReader::new(File::open(inp).unwrap());
-    let (mut behaviours, mut insts, mut matched, mut drift, mut written) = (0usize, 0usize, 0usize, 0usize, 0usize);
+    let (mut behaviours, mut insts, mut matched, mut drift, mut written, mut drift_behaviours) = (0usize, 0usize, 0usize, 0usize, 0usize, 0usize);
     let mut drift_samples: Vec<Value> = Vec::new();
     let mut samples: Vec<Value> = Vec::new();
     let mut shapes: BTreeMap<String, usize> = BTreeMap::new();
@@ -161,6 +161,11 @@ fn replay(a: &Args) {
         *shapes.entry(serde_json::to_string(&ids).unwrap()).or_default() += 1;
         let mut res = Vec::new();
         prog.resources(&mut res);
+        // all variants of one behaviour are kept or dropped together (variant 0 is the
+        // reference of the C19 comparison in ShredTrace)
+        let sample_this = written < keep && rng.gen_bool(0.01);
+        let mut buf: Vec<Value> = Vec::new();
+        let mut any_drift = false;
         for v in 0..variants {
             let variant = if v == 0 { Variant::identity(&res) } else { Variant::random(&res, &mut rng) };
             let r = record_registration(&prog, variant, behaviours, v, false);
@@ -170,22 +175,26 @@ fn replay(a: &Args) {
             let ok = real == ids && r.rec.events.iter().all(|e| e["out"].is_null() || e["out"] == "ok");
             if ok {
                 matched += 1;
-                if written < keep && rng.gen_bool(0.01) {
-                    write_events(&mut w, &r.rec.events);
-                    written += 1;
-                }
                 if samples.len() < 3 {
                     samples.push(json!({"prog": prog, "layout": ids}));
                 }
             } else {
                 drift += 1;
-                if drift <= max_drift {
-                    write_events(&mut w, &r.rec.events);
-                }
+                any_drift = true;
                 if drift_samples.len() < 5 {
                     drift_samples.push(json!({"prog": prog, "model": ids, "real": real, "placements": placements(&r.rec.events)}));
                 }
             }
+            buf.extend(r.rec.events);
+        }
+        if any_drift {
+            drift_behaviours += 1;
+            if drift_behaviours <= max_drift {
+                write_events(&mut w, &buf);
+            }
+        } else if sample_this {
+            write_events(&mut w, &buf);
+            written += 1;
         }
     }
     w.flush().unwrap();
